@@ -145,6 +145,11 @@ func genCfg(rnd *tr.Rand, focus string) *caseCfg {
 		case "readfrom-after-spill":
 			// a backlog spilled into the list part of the outbound buffer, a partial drain, then ReadFrom + Flush
 			c.sndbuf, c.wbufcap = 4096, 1024
+		case "stale-read0":
+			// edge-triggered with a chunk limit equal to the read buffer: a follow-up read is queued for a connection
+			// that is closed (data arrived together with FIN) before the task runs, and whose descriptor number is
+			// taken by the next accepted connection in the same batch
+			c.et, c.chunk, c.bufcap = true, 1024, 1024
 		case "onopen-big-reply", "onopen-big-reply-shutdown":
 			c.sndbuf = 4096
 		case "accept-fatal":
@@ -645,6 +650,53 @@ func runCase(w *tr.Writer, seed uint64, idx int, focus string) {
 					woken(seq, time.Second)
 				}
 				quiet()
+			}
+		}
+		if cfg.scenario == "stale-read0" && len(peers) == 1 {
+			pa := peers[0]
+			seq := rec.seq()
+			n, _ := pa.conn.Write([]byte("park"))
+			pa.sent = append(pa.sent, []byte("park")[:n]...)
+			select {
+			case <-h.inTraffic:
+			case <-time.After(time.Second):
+			}
+			// while the loop is parked in A's OnTraffic: A sends 5000 bytes and closes, B connects and sends
+			data := rnd.Bytes(5000)
+			n, _ = pa.conn.Write(data)
+			pa.sent = append(pa.sent, data[:n]...)
+			ending(pa)
+			pa.conn.Close()
+			pa.closed = true
+			var pb *peer
+			if c, err := net.Dial(dialNet, dialAddr); err == nil {
+				pb = &peer{conn: c, cid: -1}
+				d2 := rnd.Bytes(300)
+				n, _ = c.Write(d2)
+				pb.sent = append(pb.sent, d2[:n]...)
+			}
+			time.Sleep(10 * time.Millisecond)
+			close(h.release)
+			woken(seq, 2*time.Second)
+			quiet()
+			if pb != nil {
+				peers = append(peers, pb)
+				rec.mu.Lock()
+				pb.cid = rec.nextGid - 1
+				rec.mu.Unlock()
+				// B goes on sending: its handler must see its own stream from the first byte
+				seq = rec.seq()
+				d3 := rnd.Bytes(200)
+				n, _ = pb.conn.Write(d3)
+				pb.sent = append(pb.sent, d3[:n]...)
+				woken(seq, 500*time.Millisecond)
+				quiet()
+				for round := 0; round < 20; round++ {
+					if recvSome(pb, 1<<20, 3*time.Millisecond) == 0 && round > 3 {
+						break
+					}
+					quiet()
+				}
 			}
 		}
 		if strings.HasPrefix(cfg.scenario, "data-with-fin") && len(peers) == 2 {
